@@ -59,8 +59,8 @@ func parseSummary(out string) (summaryInfo, error) {
 				return s, fmt.Errorf("unexpected list header %q", l)
 			}
 			_ = n
-		case strings.HasPrefix(l, "  ↳ • "):
-			item := l[len("  ↳ • "):]
+		case strings.HasPrefix(l, "  ↳") && strings.Contains(l, "• "):
+			item := l[strings.Index(l, "• ")+len("• "):]
 			switch section {
 			case "files":
 				s.Files = append(s.Files, item)
